@@ -131,6 +131,10 @@ def c05_jobs(tier):
             des("p2-two-resources", "mutex", 3, procs=2, prios="0,1", budget=5, res=2,
                 ops="racq0,rrel0,racq1,rrel1,rpre0,rpre1,hold0,hold1,int0,int1,exit",
                 script="racq0,racq1,hold1,rrel0,rrel1"),
+            # holders and waiters of the resource that are preempted out of a pool at the same time
+            des("p3-with-pool", "mutex", 3, procs=3, prios="0,1,2", budget=4, res=1, pool=2,
+                ops="racq0,rrel0,rpre0,pacq1,pacq2,ppre2,prel1,hold0,hold1,int0,exit",
+                script0="pacq2,racq0,hold2", script1="hold1,racq0,hold1", script2="hold1,ppre2,hold1"),
             # a waiter that loses the hand-over race to a re-acquiring releaser twice in a row
             des("p2-hog", "mutex", 3, procs=2, prios="0,0", budget=8, res=1, ops=HOG_OPS,
                 script0="racq0,hold1,rrel0,racq0,hold1,rrel0,racq0,hold1", script1="racq0,hold1,rrel0"),
@@ -200,6 +204,13 @@ def c08_jobs(tier):
         des("pool-cap2-p4", "progress", b, dl, procs=4, prios="0,0,1,1", budget=3, pool=2,
             ops="pacq1,pacq2,prel1,prel2,hold0,hold1,tadd1,int0,int1,stop0,exit",
             script0="pacq2,hold1,prel1,prel1", script1="pacq1,hold1", script2="pacq1,hold1", script3="hold1,pacq1"),
+        # amounts in the 64-bit range (a pool of bytes): 4 Gi and 8 Gi units
+        des("pool-huge", "progress", b, dl, procs=3, prios="0,1,1", budget=4, pool=8589934592,
+            ops="pacq4294967296,pacq8589934592,pacq1,prel4294967296,prel1,hold0,hold1,tadd1,int1,stop0,exit",
+            script0="pacq8589934592,hold1,prel4294967296,hold1", script1="pacq4294967296,hold1", script2="hold1,pacq4294967296"),
+        des("resource-and-pool", "progress", b, dl, procs=3, prios="0,1,2", budget=4, res=1, pool=2,
+            ops="racq0,rrel0,rpre0,pacq1,pacq2,ppre2,prel1,prel2,hold0,hold1,int0,stop0,exit",
+            script0="pacq2,racq0,hold2", script1="hold1,racq0,hold1", script2="hold1,ppre2,hold1"),
         des("priorityqueue", "progress", b, dl, procs=3, prios="0,1,1", budget=L, pq=1,
             ops="pqput0,pqput1,pqget,pqcancel,hold0,hold1,tadd1,int0,int1,stop0,stop1,exit",
             script0="pqput0,pqput1,hold1", script1="pqget,hold1,pqget", script2="pqget,pqput0"),
@@ -237,6 +248,10 @@ def c04_jobs(tier):
         des("growth-p2", "notif", 2, dl, procs=2, prios="0,0", budget=3, ops=C04_OPS, preload=7,
             script0="hold1,hold1", script1="hold2,hold1"),
     ]
+    # several processes waiting for the same event, which is cancelled / executes / is rescheduled by a third
+    jobs.append(des("event-waiters-p3", "notif", b, dl, procs=3, prios="0,0,1", budget=3,
+                    ops="hold0,hold1,tadd1,evsched1,evsched2,waite0,waite1,evcancel0,evcancel1,int1,int2,stop1,exit",
+                    script0="evsched2,hold1,evcancel0", script1="waite0,hold1", script2="waite0,hold1"))
     if tier != "quick":
         jobs.append(des("core-p3", "notif", 3, dl, procs=3, prios="0,0,1", budget=3,
                         ops=C04_OPS + ",waitp2,int2,stop2,resume2", script0="hold1,hold1", script1="hold2,hold1",
@@ -297,6 +312,14 @@ def c06_jobs(tier):
         des("condition", "order", b, dl, procs=4, prios="0,1,2,1", budget=3, cond=1,
             ops="cwait0,cwait1,csig,setx1,setx2,setx0," + common, script0="hold1,setx2,csig", script1="cwait0,hold1",
             script2="cwait1,hold1", script3="cwait0,hold1"),
+        # a waiter that is woken, loses the race to a re-acquiring releaser and queues again inside the same call:
+        # it has been waiting since its call and keeps its place ahead of later arrivals
+        des("resource-lost-race", "order", 2, dl, procs=3, prios="0,0,0", budget=8, res=1,
+            ops="racq0,rrel0,hold0,hold1,hold2,int1,exit",
+            script0="racq0,hold2,rrel0,racq0,hold2,rrel0,hold2", script1="racq0,hold1,rrel0", script2="hold1,racq0,hold1,rrel0"),
+        des("objectqueue-lost-race", "order", 2, dl, procs=3, prios="0,0,0", budget=8, oq=1,
+            ops="oqput0,oqget,hold0,hold1,hold2,int1,exit",
+            script0="hold2,oqput0,oqget,hold2,oqput0,hold2", script1="oqget,hold1", script2="hold1,oqget,hold1"),
         des("ramp9", "order", 1, dl, procs=6, prios="0,1,2,1,0,2", budget=2, res=1,
             ops="racq0,rrel0,hold1,hold2,prio0.2,prio4.1", script="racq0,hold1"),
     ]
@@ -333,6 +356,15 @@ def c07_jobs(tier):
     jobs.append(des("cap2-hog", "pool", b, dl, procs=2, prios="0,0", budget=8, pool=2,
                     ops="pacq1,pacq2,prel1,prel2,hold0,hold1,int0,int1,exit",
                     script0="pacq2,hold1,prel2,pacq2,hold1,prel2,pacq2,hold1", script1="pacq2,hold1,prel2"))
+    # amounts in the 64-bit range (a pool of bytes)
+    jobs.append(des("cap8Gi", "pool", b, dl, procs=3, prios="0,1,2", budget=4, pool=8589934592,
+                    ops="pacq4294967296,pacq8589934592,pacq1,ppre4294967296,prel4294967296,prel1,hold0,hold1,int0,exit",
+                    script0="pacq8589934592,hold1,prel4294967296", script1="pacq4294967296,hold1,prel4294967296",
+                    script2="hold1,ppre4294967296,hold1"))
+    # a pool acquisition in progress that is ended by the preemption of a RESOURCE the caller holds
+    jobs.append(des("cap2-with-resource", "pool", b, dl, procs=3, prios="0,1,2", budget=4, pool=2, res=1,
+                    ops="pacq1,pacq2,ppre2,prel1,prel2,racq0,rpre0,rrel0,hold0,hold1,int0,exit",
+                    script0="racq0,pacq2,hold1", script1="pacq1,hold2,hold2", script2="hold1,rpre0,hold2"))
     if tier != "quick":
         jobs.append(des("cap4-p4", "pool", 3, dl, procs=4, prios="0,1,2,3", budget=4, pool=4,
                         ops=ops + ",pacq4,ppre3,int3,stop3", script="pacq2,hold1,prel2"))
@@ -365,6 +397,10 @@ def c09_jobs(tier):
             script0="racq0,hold2", script1="racq0,hold1", script2="hold1,stop1,start1"),
         des("selfstop-p2", "endoflife", b, dl, procs=2, prios="0,0", budget=4, res=1, pool=2, ops=ops,
             script0="racq0,pacq2,tadd1,stopself", script1="waitp0,racq0,hold1"),
+        # several holders of different amounts, one of them ends while a waiter wants more than is free
+        des("pool-holders-p4", "endoflife", b, dl, procs=4, prios="0,1,2,1", budget=3, pool=6,
+            ops="pacq1,pacq2,pacq3,prel1,hold0,hold1,stop0,stop1,stop2,stopself,exit,return,int0,waitp0",
+            script0="pacq1,hold1,exit", script1="pacq3,hold2", script2="pacq2,hold1,stopself", script3="hold0,pacq3,hold1"),
     ]
 
 
@@ -401,6 +437,10 @@ def c11_jobs(tier):
         des("cap2-thief-get", "buffer", b, dl, procs=2, prios="0,0", budget=7, buf=2,
             ops="bput1,bput2,bget1,bget2,hold0,hold1,int0,int1,exit",
             script0="hold1,bput2,bget2,hold1,bput2,bget2,hold1", script1="bget2,hold1"),
+        # a transfer in progress ended by the preemption of a resource the caller holds
+        des("cap2-with-resource", "buffer", b, dl, procs=3, prios="0,1,2", budget=4, buf=2, res=1,
+            ops="bput1,bput2,bput5,bget1,bget2,bget5,racq0,rpre0,rrel0,hold0,hold1,int0,exit",
+            script0="racq0,bput5,hold1", script1="hold2,bget1,hold1", script2="hold1,rpre0,hold2"),
         des("cap2-thief-put", "buffer", b, dl, procs=2, prios="0,0", budget=8, buf=2,
             ops="bput1,bput2,bget1,bget2,hold0,hold1,int0,int1,exit",
             script0="bput2,hold1,bget2,bput2,hold1,bget2,bput2,hold1", script1="bput2,hold1"),
@@ -433,6 +473,13 @@ def c12_jobs(tier):
         jobs.append(des("priorityqueue-cap" + cap, "queue", b, dl, procs=4, prios="0,0,1,1", budget=3, pq=cap, ops=pops,
                         script0="pqput0,pqput1,hold1", script1="pqput-1,pqreprio2,pqput1", script2="pqget,hold1,pqget",
                         script3="pqget,pqget"))
+    # blocked producers / consumers that are told PREEMPTED because they lost a resource they hold
+    jobs.append(des("objectqueue-with-resource", "queue", b, dl, procs=3, prios="0,1,2", budget=4, oq="1", res=1,
+                    ops="oqput0,oqput0n,oqget,racq0,rpre0,rrel0,hold0,hold1,int0,exit",
+                    script0="racq0,oqput0,oqput0n,hold1", script1="hold2,oqget,hold1", script2="hold1,rpre0,hold2"))
+    jobs.append(des("priorityqueue-with-resource", "queue", b, dl, procs=3, prios="0,1,2", budget=4, pq="1", res=1,
+                    ops="pqput0,pqput1,pqget,pqcancel,racq0,rpre0,rrel0,hold0,hold1,int0,exit",
+                    script0="racq0,pqput0,pqput1,hold1", script1="hold2,pqget,hold1", script2="hold1,rpre0,hold2"))
     # a waiting getter / putter that is woken twice and finds the queue emptied / refilled each time
     tops = "oqput0,oqput0n,oqget,hold0,hold1,int0,int1,exit"
     jobs.append(des("objectqueue-thief-get", "queue", b, dl, procs=2, prios="0,0", budget=7, oq="1", ops=tops,
@@ -607,6 +654,9 @@ def c10_jobs(tier):
                  script2="waitp1,tadd1,racq0"), crash_is_violation=True),
         dict(des("union-p2-deep", "none", b + 1, dl, procs=2, prios="0,0", budget=4, res=1, pool=2, buf=2, oq=1, pq=1,
                  cond=1, ops=UNION_OPS, script0="hold1,hold1", script1="hold1,int0"), crash_is_violation=True),
+        dict(des("union-p3-fptrap", "none", 2, dl, procs=3, prios="0,1,2", budget=3, res=1, pool=2, buf=2, oq=1, pq=1, cond=1,
+                 subscribe="res", ops=UNION_OPS, script0="racq0,hold1,rrel0", script1="pacq2,hold1,prel1",
+                 script2="tadd1,bget2,hold1", fptrap=1), crash_is_violation=True),
         ramp("evwait"), ramp("procwait"), ramp("guardq"), ramp("holders"), ramp("timers", 600), ramp("oqueue", 600),
         ramp("observers", 600), ramp("closing"),
         dict(ramp("closing"), name="ramp-closing-fptrap", opts=dict(mode="closing", fptrap=1)),
